@@ -635,6 +635,9 @@ func (fr *frame) visitTolerant(instr ssa.Instruction) (k continuation) {
 }
 
 func (fr *frame) executePhis() []ssa.Instruction {
+	if fr.fn.Pkg != nil && isRepoPkg(fr.fn.Pkg.Pkg.Path()) || fr.fn.Parent() != nil {
+		fr.in.W.blocks[fr.block] = struct{}{}
+	}
 	firstNonPhi := -1
 	for i, instr := range fr.block.Instrs {
 		if _, ok := instr.(*ssa.Phi); !ok {
